@@ -21,9 +21,9 @@ ID = 'C10'
 LEVEL = 'exploration'
 RULE = ('one block with a simultaneous pair, a referenced constant, a non-constant decorative, a constant decorative, a decorative of the '
         'exogenous input, a lag and a decorative of the lag; x exogenous form {list literal, [a]*n+[b]*m, tuple, float scalar, int '
-        'scalar, unevaluable, syntax error} x supplied length {H, H+1, H+4} x initial condition on each of the 8 variable kinds x value '
+        'scalar, unevaluable, syntax error, expression naming a model variable or an earlier exogenous variable} x supplied length {H, H+1, H+4} x initial condition on each of the 8 variable kinds x value '
         '{5., -2., sqrt(4.), unevaluable} x horizon {MaxTime line 0/1/3, solver.MaxTime set before parsing} x time variable {default, '
-        'endogenous user t, exogenous user t} x reduction on/off; Model path: AddExogenous(str|list|tuple), AddInitialCondition, Model.MaxTime; '
+        'endogenous user t, exogenous user t} x reduction on/off; one solver object re-used for two blocks with different horizons; Model path: AddExogenous(str|list|tuple), AddInitialCondition, Model.MaxTime; '
         'oracle: lengths, k axis, exogenous == supplied prefix, k=0 == initial condition, lag identity, t == k, or rejection with ValueError and no '
         'period produced; non-trivial = cases with an initial condition or a non-default form')
 ASSUMPTIONS = [
@@ -50,16 +50,20 @@ def exo_forms(H):
     out.append(('float-scalar', '2.5', 'scalar'))
     out.append(('int-scalar', '3', 'int'))
     out.append(('unevaluable', 'foo(3)', None))
+    out.append(('ref-variable-with-ic', '[x]*%d' % (H + 1), None))       # names a model variable: cannot be evaluated
+    out.append(('ref-earlier-exogenous', '[1.]*%d' % (H + 1), 'REF'))     # a second exogenous line "gref = g" follows
     out.append(('syntax-error', '[1., 2.', None))
     return out
 
 
-def make_text(H, hsource, exo_rhs, icvar, icval, tvar):
+def make_text(H, hsource, exo_rhs, icvar, icval, tvar, ref_exo=False):
     eqs = [('x', '.5*y + g'), ('y', '.5*x + m'), ('m', '2.5'), ('u', '2*x + 1'), ('p', '2.*3.'), ('q', 'g/2.'),
            ('z', 'LAG_x + 1')]
     lags = [('LAG_x', 'x')]
     ics = {}
     exos = [('g', exo_rhs)]
+    if ref_exo:
+        exos.append(('gref', 'g'))
     if tvar == 'endo':
         eqs.append(('t', 'LAG_t + 1.0'))
         lags.append(('LAG_t', 't'))
@@ -123,7 +127,10 @@ def run_solver_case(H, hsource, form, icvar, icv, tvar, red):
     tag, exo_rhs, exo_expect = form
     icval, icexp = icv
     case = {'path': 'solver', 'H': H, 'hsource': hsource, 'form': tag, 'icvar': icvar, 'icval': icval, 'tvar': tvar, 'reduction': red}
-    blk = make_text(H, hsource, exo_rhs, icvar, icval, tvar)
+    ref_exo = exo_expect == 'REF'
+    blk = make_text(H, hsource, exo_rhs, icvar, icval, tvar, ref_exo)
+    if ref_exo:
+        exo_expect = None
     must_reject = (exo_expect is None) or (isinstance(exo_expect, list) and len(exo_expect) < H + 1) or \
         (icvar != 'none' and icexp is None)
     s = EquationSolver(run_equation_reduction=red)
@@ -210,8 +217,27 @@ def run_model_case(H, form_kind, n_extra, ickind, tvar_unused=None):
     return ('ok' if not viols else 'violation'), viols
 
 
+def run_reuse_case(H1, H2, red, tvar):
+    """One solver object parses and solves a block with horizon H1, then another block with horizon H2."""
+    case = {'path': 'reuse', 'H1': H1, 'H2': H2, 'reduction': red, 'tvar': tvar}
+    f1 = exo_forms(H1)[4]      # mult-exact
+    f2 = exo_forms(H2)[3]      # list-exact
+    s = EquationSolver(run_equation_reduction=red)
+    try:
+        s.ParseString(make_text(H1, 'line', f1[1], 'x', '5.', tvar).text())
+        s.SolveEquation()
+        s.ParseString(make_text(H2, 'line', f2[1], 'p', '-2.', tvar).text())
+        s.SolveEquation()
+    except Exception as e:
+        return 'unexpected-error', [core.violation('reuse:valid-input-rejected:' + type(e).__name__, '%s: %s' % (type(e).__name__, str(e)[:160]), case)]
+    viols = check_series(s.TimeSeries, H2, f2[2], 'p', -2.0, tvar, case)
+    for v in viols:
+        v['key'] = 'reuse:' + v['key']
+    return ('ok' if not viols else 'violation'), viols
+
+
 def units(tier):
-    out = []
+    out = [{'kind': 'reuse'}]
     for H in BOUNDS[tier]['horizons']:
         for hsource in ('line', 'solver-only', 'solver-overrides-line'):
             for tvar in TVARS:
@@ -237,6 +263,16 @@ def run_unit(unit, tier):
                         core.bump(res['outcomes'], 'solver:' + outcome)
                         res['violations'].extend(viols[:2])
         res['samples'] = [{'block': make_text(H, unit['hsource'], exo_forms(H)[1][1], 'p', '5.', unit['tvar']).text()}]
+    elif unit['kind'] == 'reuse':
+        hs = BOUNDS[tier]['horizons']
+        for H1, H2, red, tvar in itertools.product(hs, hs, (True, False), TVARS):
+            dig.add(('reuse', H1, H2, red, tvar))
+            outcome, viols = run_reuse_case(H1, H2, red, tvar)
+            res['evaluations'] += 1
+            res['nontrivial'] += 1
+            core.bump(res['outcomes'], 'reuse:' + outcome)
+            res['violations'].extend(viols[:2])
+        res['samples'] = [{'history': 'one solver: ParseString(block, MaxTime=H1), SolveEquation, ParseString(other block, MaxTime=H2), SolveEquation'}]
     else:
         H = unit['H']
         for form_kind in ('str', 'list', 'tuple'):
@@ -258,6 +294,8 @@ def run_unit(unit, tier):
 
 
 def replay(case):
+    if case['path'] == 'reuse':
+        return run_reuse_case(case['H1'], case['H2'], case['reduction'], case['tvar'])[1][:1]
     if case['path'] == 'model':
         return run_model_case(case['H'], case['form'], case['extra'], case['ic'])[1][:1]
     form = [f for f in exo_forms(case['H']) if f[0] == case['form']][0]
